@@ -495,7 +495,14 @@ class Engine(object):
                     m._expire_timestamp = None
             else:
                 # what SeedTask configuration does: the threshold is computed once, when the task is created
-                T_code = before_timestamp_from_options(self._rule_conf(op['rule']))
+                try:
+                    T_code = before_timestamp_from_options(self._rule_conf(op['rule']))
+                except Exception as e:
+                    v = core.Violation('C13/threshold-computation-raised/seed-%s' % op['rule']['kind'],
+                                       'before_timestamp_from_options(%r) raised %r' % (self._rule_conf(op['rule']), e), None)
+                    self.dead = True
+                    v.case = core.jsonable({'cfg': self.cfg, 'ops': self.ops})
+                    return v
                 self.seed_rule = {'rule': op['rule'], 'T': self.rule_T(op['rule'], self.clock.now)}
                 for m in self.mgrs.values():
                     m._expire_timestamp = T_code
@@ -796,10 +803,10 @@ class Engine(object):
         missing = required - actual
         extra = actual - allowed
         how = 'upstream calls %s, expected %s%s' % (
-            self._fmt_calls(actual), self._fmt_calls(required),
-            (' (optionally up to %s)' % self._fmt_calls(allowed)) if allowed != required else '')
+            self._fmt_calls(actual, name), self._fmt_calls(required, name),
+            (' (optionally up to %s)' % self._fmt_calls(allowed, name)) if allowed != required else '')
         if missing and not any(p['flex'] for p in preds):
-            clause = 'stale-not-refreshed'
+            clause = 'stale-not-refreshed' if any(states[c] == 'must' for c in coords) else 'missing-tile-not-fetched'
         elif extra:
             clause = 'duplicate-upstream-request' if set(extra) <= set(allowed) else 'fresh-refetched'
         else:
@@ -812,15 +819,18 @@ class Engine(object):
         boxes = set(e['bbox'] for e in self.log)
         return set(c for c in UNIVERSE if g.tile_bbox(c) in boxes)
 
-    def _fmt_calls(self, counter):
+    def _fmt_calls(self, counter, name='cs'):
         g = self.grid
         names = {}
-        for c in UNIVERSE:
-            names[g.tile_bbox(c)] = 'tile%r' % (c,)
         mg = self.mgrs['cm'].meta_grid
+        metas = {}
         for c in UNIVERSE:
             mt = mg.meta_tile(c)
-            names.setdefault(tuple(mt.bbox), 'meta%r' % (mt.main_tile_coord,))
+            metas.setdefault(tuple(mt.bbox), 'meta-tile-of%r' % (mt.main_tile_coord,))
+        tiles = dict((g.tile_bbox(c), 'tile%r' % (c,)) for c in UNIVERSE)
+        first, second = (metas, tiles) if name == 'cm' else (tiles, metas)
+        names.update(second)
+        names.update(first)
         return '[' + ', '.join('%s%s' % (names.get(b, 'bbox%r' % (b,)), '' if n == 1 else 'x%d' % n)
                                for b, n in sorted(counter.items())) + ']'
 
